@@ -333,7 +333,11 @@ def desugar_closures(facts, body, rounds=3):
                 good = 1 if kind == "option" else 0
                 gname, bname = ("Some", "None") if kind == "option" else ("Ok", "Err")
                 adt = "std::option::Option" if kind == "option" else "std::result::Result"
-                recv = fresh("?recv"); dl = fresh("isize")
+                a0 = args[0].get("m") or args[0].get("c") if isinstance(args[0], dict) else None
+                recv_ty = "?recv"
+                if a0 is not None and not a0["p"] and a0["l"] < len(locs):
+                    recv_ty = locs[a0["l"]] if isinstance(locs[a0["l"]], str) else locs[a0["l"]].get("ty", "?recv")
+                recv = fresh(recv_ty); dl = fresh("isize")
                 # S: take the receiver, switch on its variant
                 y_stmts = enter([], {"m": _L(recv, ["as %s#%d" % (gname, good), ".0#0"])})
                 Y = new_block(y_stmts, {"t": "goto", "target": boff, "sp": sp})
